@@ -400,6 +400,18 @@ func checkC19(c *Ctx, r *Report) {
 				return false
 			})
 		}
+		// the split may be made by a helper of the package (a hand-written path.Split): a result of
+		// such a call is judged by what the helper returns for it - a literal split only if every
+		// return is one, normalised if any return is (h5DependsDeep, ip_h5.go)
+		shallowLiteral, shallowNormalises := literal, normalises
+		literal = func(v ssa.Value) bool {
+			return h5DependsDeep(v, pkg, func(x ssa.Value) bool { return shallowLiteral(x) }, true, 0)
+		}
+		normalises = func(x ssa.Value) bool {
+			return shallowNormalises(x) || h5HelperResult(x, pkg, func(_ *ssa.Return, res ssa.Value) bool {
+				return h5DependsDeep(res, pkg, shallowNormalises, false, 1)
+			}, false)
+		}
 		switch {
 		case target == nil:
 			o.Bad("could not identify the value stored as URL.Target (unresolved)")
